@@ -224,6 +224,46 @@ pub fn containers(o: &mut dyn Write, seed: u64, per_plan: usize) {
                 let env = Envelope { src: Id::from(rid(&mut rng)), dst: Id::from(rid(&mut rng)), msg: Id::from(rid(&mut rng)) };
                 let env2 = env.rewrite(&plan);
                 out("envelope", true, 3, vec![vec![u(env.src), u(env.dst), u(env.msg)]], vec![vec![u(env2.src), u(env2.dst), u(env2.msg)]], json!({}));
+                // the write-once register's message and actor-state wrappers: payloads that carry Ids are rewritten, the
+                // variant, request ids and client states are not touched (item = [id columns.., variant, request id ..])
+                {
+                    use stateright::actor::write_once_register::{WORegisterActorState, WORegisterMsg};
+                    type WM = WORegisterMsg<u64, Id, Id>;
+                    let r9 = rng.gen_range(0..9u64) as usize;
+                    let with_id: Vec<(usize, WM)> = vec![
+                        (1, WORegisterMsg::Internal(Id::from(rid(&mut rng)))),
+                        (2, WORegisterMsg::Put(r9 as u64, Id::from(rid(&mut rng)))),
+                        (6, WORegisterMsg::GetOk(r9 as u64, Id::from(rid(&mut rng)))),
+                    ];
+                    let code = |m: &WM| -> Vec<usize> {
+                        match m {
+                            WORegisterMsg::Internal(i) => vec![u(*i), 1, 0],
+                            WORegisterMsg::Put(r, v) => vec![u(*v), 2, *r as usize],
+                            WORegisterMsg::Get(r) => vec![3, *r as usize],
+                            WORegisterMsg::PutOk(r) => vec![4, *r as usize],
+                            WORegisterMsg::PutFail(r) => vec![5, *r as usize],
+                            WORegisterMsg::GetOk(r, v) => vec![u(*v), 6, *r as usize],
+                        }
+                    };
+                    for (_, m) in &with_id {
+                        out("wo_msg_with_id", true, 1, vec![code(m)], vec![code(&m.rewrite(&plan))], json!({}));
+                    }
+                    let without: Vec<WM> = vec![WORegisterMsg::Get(r9 as u64), WORegisterMsg::PutOk(r9 as u64), WORegisterMsg::PutFail(r9 as u64)];
+                    for m in &without {
+                        out("wo_msg_plain", true, 0, vec![code(m)], vec![code(&m.rewrite(&plan))], json!({}));
+                    }
+                    type WS = WORegisterActorState<Id, u64>;
+                    let scode = |s: &WS| -> Vec<usize> {
+                        match s {
+                            WORegisterActorState::Server(i) => vec![u(*i), 1],
+                            WORegisterActorState::Client { awaiting, op_count } => vec![0, awaiting.map(|x| x as usize + 1).unwrap_or(0), *op_count as usize],
+                        }
+                    };
+                    let sv: WS = WORegisterActorState::Server(Id::from(rid(&mut rng)));
+                    out("wo_state_server", true, 1, vec![scode(&sv)], vec![scode(&sv.rewrite(&plan))], json!({}));
+                    let cl: WS = WORegisterActorState::Client { awaiting: if rng.gen_bool(0.5) { Some(r9 as u64) } else { None }, op_count: rng.gen_range(0..4) };
+                    out("wo_state_client", true, 0, vec![scode(&cl)], vec![scode(&cl.rewrite(&plan))], json!({}));
+                }
                 // networks with id-bearing messages
                 let envs: Vec<Envelope<Id>> = (0..rng.gen_range(0..=4))
                     .map(|_| Envelope { src: Id::from(rid(&mut rng)), dst: Id::from(rid(&mut rng)), msg: Id::from(rid(&mut rng)) })
